@@ -936,7 +936,21 @@ pub fn run(ctx: &Ctx, which: Which) -> (Acc, String, bool) {
     let wf_random: u64 = if matches!(which, Which::C03) { 0 } else { ctx.pick(120_000, 3_000_000) };
     let wf_total = small_asts.len() as u64 + wf_random;
     let gen_cfg = crate::ast::GenCfg::default();
-    let total = ex_total + boundary_total + soup_total + fam_total + fixed_total + wf_total;
+    // the repository's own scripts, whole and cut at every line break (prefixes and suffixes)
+    let scripts: Vec<String> = {
+        let mut v = vec![];
+        for (_, text) in corpus::repo_scripts() {
+            let cuts: Vec<usize> = text.char_indices().filter(|(_, c)| *c == '\n').map(|(i, _)| i).collect();
+            for c in &cuts {
+                v.push(text[..*c].to_string());
+                v.push(text[*c + 1..].to_string());
+            }
+            v.push(text);
+        }
+        v
+    };
+    let script_total = scripts.len() as u64;
+    let total = ex_total + boundary_total + soup_total + fam_total + fixed_total + wf_total + script_total;
     let acc = run_cases(ctx, total, |i, acc| {
         let (src, kind): (String, String) = if i < ex_total {
             let bi = offs.iter().rposition(|o| *o <= i).unwrap();
@@ -1003,6 +1017,10 @@ pub fn run(ctx: &Ctx, which: Which) -> (Acc, String, bool) {
         } else if i < ex_total + boundary_total + soup_total + fam_total + fixed_total {
             acc.nontrivial += 1;
             (FIXED[(i - ex_total - boundary_total - soup_total - fam_total) as usize].to_string(), "fixed".to_string())
+        } else if i >= total - script_total {
+            acc.nontrivial += 1;
+            acc.count("repo_script_inputs");
+            (scripts[(i - (total - script_total)) as usize].clone(), "repo-script".to_string())
         } else {
             let j = i - ex_total - boundary_total - soup_total - fam_total - fixed_total;
             if (j as usize) < small_asts.len() {
@@ -1035,7 +1053,7 @@ pub fn run(ctx: &Ctx, which: Which) -> (Acc, String, bool) {
         }
     });
     let rule = format!(
-        "corpus: every sequence of token classes (33 classes, DESIGN Appendix B) of length 1..{} with gap fillers none/space/annotation up to length {} (space/none beyond){}, half of them re-spelled with alternative spellings = {} inputs; {}{} random token soups (<= {} tokens, bracket-balanced bias) and raw character soups; {} scaling families x sizes {:?}; fixed regression inputs; for C04-C07 additionally every core-language AST of <= 3 nodes and random well-formed programs from the C01 generators, printed with minimal parentheses. distinct_nontrivial counts the enumerated class sequences, boundary programs, families and distinct soups.",
+        "corpus: every sequence of token classes (33 classes, DESIGN Appendix B) of length 1..{} with gap fillers none/space/annotation up to length {} (space/none beyond){}, half of them re-spelled with alternative spellings = {} inputs; {}{} random token soups (<= {} tokens, bracket-balanced bias) and raw character soups; {} scaling families x sizes {:?}; fixed regression inputs; the repository's own tests/scripts/*.garnish whole and cut at every line break; for C04-C07 additionally every core-language AST of <= 3 nodes and random well-formed programs from the C01 generators, printed with minimal parentheses. distinct_nontrivial counts the enumerated class sequences, boundary programs, families and distinct soups.",
         l_full,
         l_gap,
         if blocks.iter().any(|b| b.0 == 5) { " plus length 5 without fillers" } else { "" },
